@@ -16,6 +16,13 @@ def run(tier, seed):
         dict(type='wire', nseg=4, p1=[3.7, 0.0, 0.0], p2=[3.7, 2.124, 0.0], r=0.0077, tag=None, taper=None)])
     for _ in range(5):      # several copies: each draws its own reversal / order / split
         chk.notes.setdefault('failing_specs', []).insert(0, json.loads(json.dumps(probe)))
+    # fixed probe for the recorded finding C06-partial-load-at-multiwire-junction (the oracle loads conductor 0 of it)
+    tee = dict(f=50.0, media=[], family='probe-tee-partial-load', tagmode='none', sources=[], loads=[], loaded=[0], wires=[
+        dict(type='wire', nseg=3, p1=[0.4788746053933119, 0.106208347016158, 0.5086252755378776], p2=[0.02912017528775452, -0.5100669260245381, 0.5086252755378776], r=0.002569129307207997, tag=None, taper=None),
+        dict(type='wire', nseg=2, p1=[0.02912017528775452, -0.5100669260245381, 0.5086252755378776], p2=[0.02912017528775452, -0.5100669260245381, 0.0], r=0.002496488446937928, tag=None, taper=None),
+        dict(type='wire', nseg=4, p1=[0.02912017528775452, -0.5100669260245381, 0.5086252755378776], p2=[-0.570552398186322, -1.3317672900787996, 0.5086252755378776], r=0.001486227605481688, tag=None, taper=None)])
+    for _ in range(4):
+        chk.notes.setdefault('failing_specs', []).insert(0, json.loads(json.dumps(tee)))
     nor = 24 if (q and not chk.broken) else (64 if q else 1600)
     run_oracle(chk, rng, nor, 'zor.c06', 'c06-oracle', (None, None, 'ideal'))
     return chk.finish()
